@@ -39,7 +39,7 @@ CLAIMED = {
          'Theorems C12_* (coq/props/C12.v): levenshtein_neighbors model exact and NoDup for any duplicate-free alphabet, hamming_neighbors for any position list, next_nearest = strings within 1..m steps, find_pairs lists each unordered pair once, neighbor numbers, isdist1; the enumeration loops of _isdist2_hamming / _isdist3_hamming and the cascade of nndist_hamming are modelled and proved equal to the capped minimum (C12_nndist); the source text of levenshtein_neighbors, hamming_neighbors, _isdist2_hamming, _isdist3_hamming is regenerated into Gallina on every run and proved equal, as lists, to the models (C12_source_*, coq/props/C12g.v); isdist1, calculate_neighbor_numbers and the nndist_hamming cascade as written (coq/props/C12h.v); next_nearest_neighbors, find_neighbor_pairs and find_neighbor_pairs_index as written, for every set iteration order (coq/props/C12i.v).',
          COMMON_NOTE + 'Python generator/set semantics; nndist_hamming for references over the amino-acid letters (its documented alphabet).', 'DESIGN.md section 4 C12'),
  'C14': ('Coq proof: every engine model with a custom distance keeps a pair iff lev <= k and custom <= max (generic in the distance), TCRdist glue exact for any tables / CDR3 distance, bundled V tables symmetric with zero diagonal by vm_compute on literals regenerated from the CSVs; differential runs with six custom distances and a vendored pwseqdist stand-in',
-         'Theorems C14_* (coq/props/C14.v). Partial for TCRdist: real pwseqdist is absent; what is decided is the glue around it (candidate search, table lookup by row allele, chain sums, threshold, empty result).',
+         'Theorems C14_* (coq/props/C14.v). Partial for TCRdist: real pwseqdist is absent; what is decided is the glue around it (candidate search, table lookup by row allele, chain sums, threshold, empty result); that glue is also regenerated from nn.py on every run and proved against the model (coq/props/C14h.v: the trimming slice for every ntrim / ctrim, the flat table index, the sum and threshold, the default parameters).',
          COMMON_NOTE + 'custom distances symmetric with d(x,x)=0 (stated domain); pandas read_csv/get_indexer; the stand-in CDR3 distance.', 'DESIGN.md section 4 C14'),
  'C16': ('Coq proof: regenerated Chao kernels = closed forms (field/lra over Q), set algebra by NoDup counting, the three overlap measures regenerated from stats.py proved equal to the set measures; differential run of extracted model vs implementation',
          'Theorems C16_* in coq/props/C16.v: the functions generated from stats.py on this run equal the closed forms for every count vector of length >= 1 (no exception path), a defined estimate is >= S_obs for integer counts, and the overlap measures are the stated set cardinalities, symmetric and invariant under order/duplicates.',
